@@ -2,7 +2,8 @@
 
 spec/ldiff/Ldiff.tla: Diff / CompareDiff as the round-based algorithm (getRange, compareResults, the
 three branches per range) over the modelled range trees; invariant DiffExactAllRequesters: for every
-requester contents and every reachable remote index (repaired or legacy maintenance) the result is the
+requester contents AND requester tuning (threshold, divide factor DF or DF^2) and every reachable remote
+index tuned on its own (repaired or legacy maintenance) the result is the
 set-theoretic difference, each id once, within D+2 rounds. Bound to app/ldiff and both wire adapters by
 replay of TLC-generated index pairs / histories, random large sets and trace validation."""
 import os
@@ -23,23 +24,28 @@ def run(ctx):
     # 1. the design
     if thorough:
         lc.exhaustive(ctx, ["Ldiff_c07_t3.cfg", "Ldiff_c07_t4.cfg", "Ldiff_c07_pair.cfg"], coverage=True)
-        lc.exhaustive(ctx, ["Ldiff_c07_t2.cfg", "Ldiff_c07_legacy_t.cfg", "Ldiff_c07_legacy_t3.cfg"])
+        lc.exhaustive(ctx, ["Ldiff_c07_t2.cfg", "Ldiff_c07_t4m.cfg", "Ldiff_c07_legacy_t.cfg", "Ldiff_c07_legacy_t3.cfg",
+                            "Ldiff_c07_legacy_t4m.cfg"])
     else:
         lc.exhaustive(ctx, ["Ldiff_c07_q3.cfg"], coverage=True)
-        lc.exhaustive(ctx, ["Ldiff_c07_q2.cfg", "Ldiff_c07_legacy_q.cfg"])
+        lc.exhaustive(ctx, ["Ldiff_c07_q2.cfg", "Ldiff_c07_q4m.cfg", "Ldiff_c07_legacy_q.cfg"])
     lc.must_find(ctx, "Ldiff_c07_asis_nil.cfg", "DiffExactAllRequesters")
+    # requester and remote are tuned independently in every configuration above; this deviation is exact
+    # for equally tuned peers and must be refuted because they are not
+    lc.must_find(ctx, "Ldiff_c07_dev_samecount.cfg", "DiffExactAllRequesters")
     # 2. spec -> code: every pair of contents (fresh fills), histories of two peers, legacy remote
     if thorough:
-        jobs = [("LdiffGen_p2t.cfg", None, None), ("LdiffGen_p3t.cfg", None, None), ("LdiffGen_s2_2.cfg", 300, 11),
-                ("LdiffGen_s2_3.cfg", 200, 11), ("LdiffGen_s2_4.cfg", 200, 11), ("LdiffGen_l2_2.cfg", 300, 13), ("LdiffGen_l2_3.cfg", 200, 13)]
+        jobs = [("LdiffGen_p2t.cfg", None, None), ("LdiffGen_p3t.cfg", None, None), ("LdiffGen_p4m.cfg", None, None),
+                ("LdiffGen_s2_2.cfg", 300, 11), ("LdiffGen_s2_3.cfg", 200, 11), ("LdiffGen_s2_4m.cfg", 300, 11),
+                ("LdiffGen_l2_2.cfg", 300, 13), ("LdiffGen_l2_3.cfg", 200, 13), ("LdiffGen_l2_4m.cfg", 200, 13)]
     else:
-        jobs = [("LdiffGen_p2.cfg", None, None), ("LdiffGen_s2_2.cfg", 15, 11), ("LdiffGen_s2_3.cfg", 10, 11), ("LdiffGen_l2_2.cfg", 15, 13)]
+        jobs = [("LdiffGen_p2.cfg", None, None), ("LdiffGen_s2_2.cfg", 12, 11), ("LdiffGen_s2_4m.cfg", 12, 11), ("LdiffGen_l2_2.cfg", 12, 13)]
     dirs = lc.generate(ctx, jobs)
     ctx.go_test("./ldiff", run="TestReplay$", env={"VERIF_TUPLES": tuples, "VERIF_BEHAVIOURS": dirs}, timeout=2400, name="replay TLC behaviours")
     # 3. random large sets, skewed prefixes, every transport, legacy remote
     ctx.go_test("./ldiff", run="TestRandomC07$", env={"VERIF_TUPLES": tuples}, timeout=3000, name="random set pairs")
     # 4. code -> spec
-    files = ["u2_cur", "u2_leg", "u3_cur", "u3_leg", "u4_cur"] if thorough else ["u2_cur", "u2_leg", "u3_cur"]
+    files = ["u2_cur", "u2_leg", "u3_cur", "u3_leg", "u4_cur", "u4_leg"] if thorough else ["u2_cur", "u2_leg", "u4_cur"]
     lc.record_and_validate(ctx, tuples, files, "ObsDiffExact", 150 if thorough else 12)
     if thorough:
         n = lc.record_and_validate(ctx, tuples, ["u2_cur", "u3_cur"], "ObsDiffExact", 6, env={"VERIF_CORRUPT": "diff"}, expect_reject=True)
